@@ -4,6 +4,7 @@ use crate::harness::{self, Outcome, RunStats};
 use crate::scen_client::{self, ClientPlan};
 use crate::scen_disk::{self, DiskPlan};
 use crate::scen_frame::{self, FramePlan};
+use crate::scen_orch::{self, OrchPlan};
 use crate::scen_wire::{self, WirePlan};
 use serde::{Deserialize, Serialize};
 use simcore::Rng;
@@ -15,6 +16,7 @@ pub enum Plan {
     Disk(DiskPlan),
     ClientLib(ClientPlan),
     Frame(FramePlan),
+    Orch(OrchPlan),
 }
 
 pub const WIRE_PROPS: &[&str] = &[
@@ -27,6 +29,7 @@ pub fn properties() -> Vec<&'static str> {
     v.extend(DISK_PROPS);
     v.push("C20");
     v.push("C14");
+    v.push("C19");
     v.sort();
     v
 }
@@ -38,6 +41,9 @@ pub fn gen_plan(property: &str, rng: &mut Rng, thorough: bool) -> Option<Plan> {
     }
     if WIRE_PROPS.contains(&property) {
         return Some(Plan::Wire(scen_wire::gen_plan(rng, property, thorough)));
+    }
+    if property == "C19" {
+        return Some(Plan::Orch(scen_orch::gen_plan(rng, thorough)));
     }
     if property == "C14" {
         return Some(Plan::Frame(scen_frame::gen_plan(rng, thorough)));
@@ -85,6 +91,10 @@ fn run_plan_here(plan: &Plan, seed: u64, verbose: bool) -> (Outcome, RunStats) {
             let p2 = p.clone();
             harness::run_sim(seed, &p.knobs, verbose, move || scen_frame::run(p2))
         }
+        Plan::Orch(p) => {
+            let p2 = p.clone();
+            harness::run_sim(seed, &p.knobs, verbose, move || scen_orch::run(p2))
+        }
     }
 }
 
@@ -94,6 +104,7 @@ pub fn shrink(plan: &Plan) -> Vec<Plan> {
         Plan::Disk(p) => scen_disk::shrink(p).into_iter().map(Plan::Disk).collect(),
         Plan::ClientLib(p) => scen_client::shrink(p).into_iter().map(Plan::ClientLib).collect(),
         Plan::Frame(p) => scen_frame::shrink(p).into_iter().map(Plan::Frame).collect(),
+        Plan::Orch(p) => scen_orch::shrink(p).into_iter().map(Plan::Orch).collect(),
     }
 }
 
@@ -104,6 +115,7 @@ pub fn budget(property: &str, thorough: bool) -> (u64, u64) {
         "C10" => 400,
         "C20" => 6_000,
         "C14" => 12_000,
+        "C19" => 6_000,
         "C11" => 5_000,
         "C12" => 3_000,
         "C09" => 6_000,
@@ -142,6 +154,7 @@ pub fn rule_text(property: &str) -> &'static str {
         "C15" => "server requiring authorization; sessions with missing, forged, expired and valid HS256 tokens whose read/write/delete grants are pattern sets; mixed request sequences inside and outside the grant; containment of a request pattern in the grants decided over a finite universe of keys; non-trivial: >=4 answered requests incl. >=1 error; distinct = distinct trace hashes",
         "C16" => "one session holding a plain and an aggregated psubscribe (1/10/100/1000 ms) on the same pattern, writers producing bursts, repeated keys, set/delete alternation, idle gaps around the interval; non-trivial: a subscription with >=3 messages; distinct = distinct trace hashes",
         "C14" => "generated client and server messages (all variants, boundary ids/versions, nested/odd JSON, unicode and empty keys, 1-3 KiB strings) written by the real write_line_and_flush through a simulated stream with 1-byte fragments, Pending, tiny pipe capacities, reader stalls that trigger the send timeout and a reader cancelled and re-polled inside select!; read back by the real receive_msg; non-trivial: >=2 messages with fragmentation on; distinct = distinct trace hashes",
+        "C19" => "clusters of 1-7 configured nodes, 1-3 of them real orchestrator instances, the others scripted peers (silent, voting, voting twice, voting late, voting under an unknown id, competing with various priorities, heartbeating as member or intruder, sending unsolicited votes) on a simulated UDP network with loss, duplication, reordering, delay and partitions; configured quorum absent or set; safety oracle over the datagram log and the process log; non-trivial: >=2 nodes and >=1 server process started; distinct = distinct trace hashes",
         "C09" => "fault-free persistence cycles (periodic flush then kill, or clean shutdown) and directories laid out by the harness in schema v1/v2/v3 in both toggle states, damaged primary slots; non-trivial: the snapshot holds a CAS entry or a registration; distinct = distinct trace hashes",
         "C10" => "histories of 2-5 flushes with distinct states; for one flush of each history EVERY file-system operation (plus torn variants of *.tmp writes) is used as crash point, one simulated run each, followed by a restart; evaluations counts crash-point runs; non-trivial: crash landed inside a flush that had a completed predecessor; distinct = distinct trace hashes of histories",
         "C18" => "ReDB backend: 1-25 operations, node killed between two scheduler turns of the writer task (or stopped cleanly), database file copied, new instance; non-trivial: >=3 prefixes; distinct = distinct trace hashes",
